@@ -247,6 +247,21 @@ void SubprocessSet::HandlePendingInterruption() {
     interrupted_ = SIGTERM;
   else if (sigismember(&pending, SIGHUP))
     interrupted_ = SIGHUP;
+
+  // These signals are blocked outside of ppoll()/pselect(), so one that is
+  // noticed here is still pending.  It has been taken note of: accept it, or
+  // it kills ninja with its default action when the destructor restores the
+  // signal mask, after the cleanup but instead of the normal exit.
+  static const int kSignals[] = { SIGINT, SIGTERM, SIGHUP };
+  for (size_t i = 0; i < sizeof(kSignals) / sizeof(kSignals[0]); ++i) {
+    if (sigismember(&pending, kSignals[i])) {
+      sigset_t set;
+      sigemptyset(&set);
+      sigaddset(&set, kSignals[i]);
+      int accepted;
+      sigwait(&set, &accepted);
+    }
+  }
 }
 
 SubprocessSet::SubprocessSet() {
